@@ -328,11 +328,8 @@ Definition load_expression (d : list (string * pv)) : res pv :=
           else if negb (forallb (fun fd => negb (is_required (snd fd)) || has_key (fst fd) given) spec) then Err EType
           else
             let! fs := mapM (fun kv => let! e := ev_res (snd kv) in Ok (fst kv, e)) given in
-            (* the dataclass holds one value per declared field; the dump lists them sorted by name (spec order).
-               When the document gives exactly the dumped fields in that order nothing is filled in or reordered;
-               the general branch says the same thing for any document. *)
-            let all := if list_eqb (keys_of fs) (filter (fun k => negb (String.eqb k "parent")) (keys_of spec)) then fs
-                       else map (fun fd => (fst fd, match lookup (fst fd) fs with Some v => v | None => default_ev (snd fd) end)) spec in
+            (* the dataclass holds one value per declared field; the dump lists them sorted by name (spec order) *)
+            let all := map (fun fd => (fst fd, match lookup (fst fd) fs with Some v => v | None => default_ev (snd fd) end)) spec in
             if String.eqb c "ExprName" then
               match lookup "name" all, has_key "parent" given with
               | Some (VStr n), false => Ok (PExpr (VName n LNone))
